@@ -137,7 +137,8 @@ class SRECline(object):
             cksum = sum(s) & 0xFF
             self.cksum = cksum ^ 0xFF
             if self.cksum != int(line[-2:], 16):
-                logger.warn("bad checksum, needed %02x"%(cksum^0xff))
+                logger.warning("bad checksum, needed %02x"%(cksum^0xff))
+                raise ValueError(line)
         except (AssertionError,ValueError):
             raise SRECError(line)
 
